@@ -124,6 +124,9 @@ def _check_main(run, P):
     for r in ("C14.progress", "C14.fixpoint"):
         del run.rule_docs[r]
         del run.minimum[r]
+    run.do(_numbers, run, P)
+    run.do(_specialisations, run, P)
+    _alias(run, "C14.sweeps", "C03.infer", lambda: c14._sweeps(run, P))
 
 
 def _guard(run, P):
@@ -149,6 +152,70 @@ def _guard(run, P):
     from . import c05
     run.do(c05.lowering_table, run, P, "C03.guard")
     run.do(_templates, run, P)
+
+
+def _numbers(run, P):
+    """Numbers reach the Fortran text through map_constant only (which writes them as
+    double precision literals), so that no INTEGER arithmetic is generated."""
+    F = P.cls(f"{EXPR}.FortranExpressionMapper")
+    import re as _re
+    bad = []
+    n = 0
+    for c in P.mro(F):
+        if c.module.trusted:
+            continue
+        for name, f in sorted(c.methods.items()):
+            if not name.startswith("map_") or name in ("map_constant", "map_foreign"):
+                continue
+            n += 1
+            for x in ast.walk(f.node):
+                if isinstance(x, ast.Constant) and isinstance(x.value, str) \
+                        and _re.search(r"%[-+ 0-9.]*[dif]|\{[^}]*:[^}]*[dfg]\}", x.value):
+                    bad.append((f, x))
+                if isinstance(x, ast.Call) and isinstance(x.func, ast.Name) and x.func.id in ("int", "float") \
+                        and any(isinstance(y, ast.Attribute) and y.attr in ("exponent", "base", "index")
+                                for y in ast.walk(x)):
+                    pass
+    run.ob("C03.prec", bad[0][0] if bad else F, bad[0][1] if bad else None, not bad,
+           construct=f"no handler of the Fortran printer other than map_constant formats a number "
+                     f"({n} handlers)" + (f" (found {bad[0][1].value!r} in {bad[0][0].name})" if bad else ""),
+           why="map_constant writes every number as a double (2d0): an exponent or factor printed "
+               "as an integer literal makes the operation INTEGER arithmetic when the other operand "
+               "is a loop variable - i**(-2) is 0 for every i >= 2")
+
+
+def _specialisations(run, P):
+    """One generated subroutine per (function, argument kinds): the table is keyed by
+    the kinds themselves."""
+    f = P.func(f"{GEN}.emit_inst_AssignFunctionCall")
+    kinds = None
+    for s_ in ast.walk(f.node):
+        if isinstance(s_, ast.Assign) and isinstance(s_.value, ast.Call) \
+                and isinstance(s_.value.func, ast.Attribute) and s_.value.func.attr == "resolve_args" \
+                and isinstance(s_.targets[0], ast.Name):
+            kinds = s_.targets[0].id
+    subs = [x for x in ast.walk(f.node) if isinstance(x, ast.Subscript)
+            and (dotted(x.value) or "").endswith("function_and_arg_kinds_to_fortran_name")]
+    if kinds is None or not subs:
+        raise AnalysisError("emit_inst_AssignFunctionCall: kinds / specialisation table not found")
+    ok = True
+    shown = "?"
+    for x in subs:
+        key = x.slice
+        if isinstance(key, ast.Name):
+            defs = [s_.value for s_ in ast.walk(f.node) if isinstance(s_, ast.Assign)
+                    and any(isinstance(t, ast.Name) and t.id == key.id for t in s_.targets)]
+            key = defs[0] if len(defs) == 1 else key
+        shown = norm(key, 50)
+        elts = key.elts if isinstance(key, ast.Tuple) else [key]
+        if not any(isinstance(e, ast.Name) and e.id == kinds for e in elts):
+            ok = False
+    run.ob("C03.utypes", f, subs[0], ok,
+           construct=f"specialisations are looked up by ({shown}), which holds the resolved "
+                     f"argument kinds '{kinds}' themselves",
+           why="keyed by something coarser (the class names of the kinds) two user types, or a "
+               "real and a complex scalar, share one generated subroutine - written for the "
+               "dimensions of whichever came first")
 
 
 def _template_texts(P):
